@@ -264,16 +264,14 @@ where
                     1
                 }
             };
-            // get a random generator initialized with seed corresponding to couple(id_hash, count)
-            // Xoshiro256PlusPlus use [u8; 32] as seed , we must fill seed_256 with (id_hash, count)
-            // TODO to optimize
-            let mut seed_256 = [0u8; 32];
-            seed_256[0..8].copy_from_slice(&id_hash.to_ne_bytes());
-            seed_256[8..16].copy_from_slice(&newcount.to_ne_bytes());
-            seed_256[16..24].copy_from_slice(&self.seed.to_ne_bytes());
-            //            seed_256[24..32].copy_from_slice(&0xcf7355744a6e8145_u64.to_ne_bytes());
-
-            let mut rng = Xoshiro256PlusPlus::from_seed(seed_256);
+            // get a random generator initialized with a seed corresponding to the triple (seed, id_hash, count).
+            // The 3 words are mixed into one 64 bit value expanded by seed_from_u64 (SplitMix64) : copied
+            // verbatim into the state of Xoshiro256PlusPlus, count does not reach the first output, and all
+            // occurrences of an element start their race with the same value.
+            let mut mixer = WyHash::with_seed(self.seed);
+            mixer.write_u64(id_hash);
+            mixer.write_u64(newcount);
+            let mut rng = Xoshiro256PlusPlus::seed_from_u64(mixer.finish());
             x = Exp1.sample(&mut rng);
             let mut nb_inserted = 0;
             while x < self.max_tracker.get_max_value() {
